@@ -443,6 +443,12 @@ def predict_constructed_model(d, ctx):
         for idx in np.ndindex(*lead, K):
             V[idx] = gen.haar_unitary(rng, D)
             e = -np.concatenate([[0.0], np.cumsum(10 ** rng.uniform(-1, 1.3, size=D - 1))])
+            if aux.integers(0, 3) == 0 and D >= 2:
+                # runs of equal eigenvalues (pairs, triples, ... all equal)
+                run = int(aux.integers(2, D + 1))
+                start = int(aux.integers(0, D - run + 1))
+                e[start:start + run] = e[start]
+                e = e - e.max()
             lam[idx] = rng.permutation(e)          # any order of the eigenvalues
         model = dist.CBMM(weight=w, complex_bingham=ComplexBingham(V, lam))
         ctx.describe(kind=kind, lead=lead, K=K, D=D, N=N, single=False)
@@ -461,6 +467,24 @@ def predict_constructed_model(d, ctx):
         ctx.describe(kind=kind, lead=lead, K=K, D=D, N=N, single=single)
     case.y = y
     post = ctx.lib(mm.predict, model, case)
+    if kind == 'cbmm' and not np.all(np.isfinite(post)):
+        srt = np.sort(lam, axis=-1)
+        longest = 1
+        for row in srt.reshape(-1, srt.shape[-1]):
+            cur = 1
+            for a, b in zip(row[:-1], row[1:]):
+                cur = cur + 1 if b - a <= 1e-6 else 1
+                longest = max(longest, cur)
+        if longest >= 3:
+            # three or more (nearly) equal Bingham eigenvalues: the closed form
+            # of the normaliser (sum of terms 1/prod(differences), differences
+            # forced to 1e-8) cancels catastrophically - same root cause as the
+            # known finding of C07
+            raise Violation(
+                'cbmm-non-finite-posterior-for-repeated-bingham-eigenvalues',
+                f'{int(np.sum(~np.isfinite(post)))} non-finite posteriors; eigenvalues '
+                f'{np.round(srt.reshape(-1, srt.shape[-1])[0], 6).tolist()}',
+                kind='cbmm', D=int(srt.shape[-1]), run=int(longest))
     check_valid(post, case, 'predict', mask=mask)
     # a model object is not changed by being used: the second call agrees
     again = ctx.lib(mm.predict, model, case)
